@@ -579,8 +579,31 @@ def c14(proj, rep, tier):
                'list is the set of partitions and that the tableau enumeration matches the hook-length count are value-level: not decided')
 
 
+MC3_SCOPE = {
+    'C01': MANIFOLD, 'C02': MANIFOLD, 'C03': ['numqi.sim', 'numqi.gate._internal'], 'C04': ['numqi.sim', 'numqi._torch_op', 'numqi.qec'],
+    'C05': ['numqi.entangle', 'numqi.utils'], 'C06': ['numqi.entangle', 'numqi.gellmann'], 'C07': ['numqi.sim.clifford', 'numqi.gate._pauli'],
+    'C08': ['numqi.gate._pauli', 'numqi.random._spf2'], 'C09': ['numqi.group.spf2', 'numqi.random._spf2'], 'C10': ['numqi.random'],
+    'C11': ['numqi.sim.state', 'numqi.sim.circuit'], 'C12': ['numqi.channel', 'numqi.utils'], 'C13': ['numqi.entangle.eof', 'numqi.entangle.measure'],
+    'C14': ['numqi.group._symmetric', 'numqi.group._internal'], 'C15': ['numqi.group._lie', 'numqi.matrix_space._clebsch_gordan'], 'C16': ['numqi.gellmann'],
+    'C17': ['numqi.dicke', 'numqi.utils'], 'C18': ['numqi.state', 'numqi.entangle.upb', 'numqi.dicke'], 'C19': ['numqi.qec'], 'C20': ['numqi.matrix_space'],
+}
+
+
+def with_mc3(pid, f):
+    def g(proj, rep, tier):
+        f(proj, rep, tier)
+        n = round3b.mc3(proj, rep, MC3_SCOPE[pid] if tier == 'quick' else None)
+        if tier != 'quick':
+            rep.floor('MC3 memoised functions of the package (reviewed set)', n, 20)
+    return g
+
+
 def dev(proj, rep, tier):
     pass
 
 
 PROPS = {'C01': c01, 'C02': c02, 'C06': c06, 'C08': c08, 'C13': c13, 'C12': c12, 'C15': c15, 'C16': c16, 'C03': c03, 'C04': c04, 'C05': c05, 'C07': c07, 'C19': c19, 'C10': c10, 'C11': c11, 'C18': c18, 'C20': c20, 'C17': c17, 'C09': c09, 'C14': c14, 'DEV': dev}
+
+for _pid in list(PROPS):
+    if _pid in MC3_SCOPE:
+        PROPS[_pid] = with_mc3(_pid, PROPS[_pid])
